@@ -161,7 +161,8 @@ def build_specs(qp, r, quick):
         xw, yw = L.take(nx), L.take(ny)
         need = max(0, ny - 1)
         c = r.random()
-        nprov = need if c < 0.5 else (0 if c < 0.75 else int(r.integers(0, need + 2)))
+        # exactly enough / none / fewer-or-one-more / surplus (valid call: surplus work wires are simply unused)
+        nprov = need if c < 0.4 else (0 if c < 0.6 else (int(r.integers(0, need + 2)) if c < 0.75 else need + int(r.integers(1, 4))))
         ww = L.take(nprov)
         pool = max(0, need - nprov)
         return Spec("SemiAdder", lambda: qp.SemiAdder(xw, yw, ww if (ww or r.random() < 0.5) else None), [("x", xw), ("y", yw)], ww,
